@@ -289,7 +289,7 @@ def _run(ctx, pq):
 
     # ---------------------------------------------------------------- E: whole datasets
     n_e = 160 if quick else 1500
-    cases = [gen_frame_case(rng, i < (10 if quick else 40), i) for i in range(n_e)]   # first: confirmation/regression streams
+    cases = L.load_corpus("C08") + [gen_frame_case(rng, i < (10 if quick else 40), i) for i in range(n_e)]   # corpus, confirmation/regression streams, random
     # forked workers (harness.common.pmap): a native crash or a hang while writing/reading is a failing input
     results = L.run_dataset_jobs(ctx, check_dataset, cases, "e", _replayable)
     for case, res in zip(cases, results):
